@@ -68,13 +68,15 @@ func init() {
 		Run: func(c *rt.Ctx) {
 			c.Cov["rule"] = "E3: every operation sequence up to the depth bound over the alphabet {swap of p0/p1 (plain, duplicated in one request, changed witness / DLEQ pointer / amount field, both), melt quote, melt x {Succeeded, Pending, Failed->NotFound}, poll x {Succeeded, Failed, Pending}, state check x {Pending, Succeeded, Failed} (the check itself learning the outcome), restart}; a state is distinct by its canonical form (proof states in store and model, quote states, Lightning payment states); in every state each used proof is re-presented and the state-check endpoint compared with the model"
 			runSpecs(c, c01Specs(c.Quick()))
-			c.Cov["rule_schedules"] = "E1: for each scenario every interleaving of the concurrent API calls at MintDB / Lightning call granularity with at most B preemptions (iterative bounding 0..B); oracle per execution: each secret consumed by at most one successful operation (swap returned signatures / melt's payment succeeded or is in flight at the backend), consumed proofs end SPENT or PENDING, state checks monotone, no value created"
+			c.Cov["rule_schedules"] = "E1: for each scenario every interleaving of the concurrent API calls at MintDB / Lightning call granularity with at most B preemptions (iterative bounding 0..B), followed (thorough tier, and S13 in both tiers) by ALL interleavings without a preemption bound, as a graph search over state keys (store tables, backend ledger, per thread its position and everything it has observed): the first execution reaching a state expands every alternative there, later ones are cut at it; oracle per execution: each secret consumed by at most one successful operation (swap returned signatures / melt's payment succeeded or is in flight at the backend), consumed proofs end SPENT or PENDING, state checks monotone, no value created"
 			if c.Quick() {
 				runSched(c, "C01", []string{"S1-swap-swap", "S2-swap-melt", "S3-melt-melt", "S5-swap-swapvariant", "S6-pendingmelt-poll-swap", "S8p-swap-melt-pending", "S8f-swap-melt-failed", "S10-melt-poll-swap", "S11-failedmelt-poll-remelt-swap", "S12f-meltfails-remelt-swap"}, 2)
+				runSchedAll(c, "C01", []string{"S13-failedmelt-poll-poll-remelt-swap"}, 1)
 			} else {
 				runSchedAll(c, "C01", []string{"S1-swap-swap", "S2-swap-melt", "S3-melt-melt", "S4-swap-melt-check", "S5-swap-swapvariant", "S6-pendingmelt-poll-swap", "S6f-pendingmelt-failed-poll-swap", "S8p-swap-melt-pending", "S8f-swap-melt-failed", "S9-two-input-overlap", "S10-melt-poll-swap"}, 3)
 				runSchedAll(c, "C01", []string{"S11-failedmelt-poll-remelt-swap", "S12f-meltfails-remelt-swap", "S12n-meltnotfound-remelt-swap"}, 2)
 				runSchedAll(c, "C01", []string{"S7-swap-swap-melt"}, 2)
+				runSchedAll(c, "C01", []string{"S13-failedmelt-poll-poll-remelt-swap"}, 1)
 			}
 		},
 		Worker: dispatchWorker(bfs.Worker(c01All)),
